@@ -191,6 +191,10 @@ def check(ctx, rep):
                 v = p.heap.get(v, v) if isinstance(v, tuple) else v
                 src_ok = v == ("param", "name") or (isinstance(v, tuple) and v[0] == "call" and isinstance(v[1], tuple) and v[1][0] == "attr" and v[1][2] in ("pop", "get") and v[2][:1] == (("const", "name"),)) or (isinstance(v, tuple) and v[0] == "call" and v[1] == ("name", "getattr") and v[2][1][0] == "const" and v[2][1][1] in cands) or (isinstance(v, tuple) and v[0] == "attr" and v[2] in cands)
                 rep.ob("R-NAME", key, src_ok, "the name attribute %s is set to %s, not to the name given" % (st[-1].d["target"][2], fmt(v)), where_of(init, st[-1].node), trace_of(p))
+                # bulk attribute copies onto self (functools.update_wrapper copies the wrapped callable's __dict__,
+                # self.__dict__.update(...)) must not come after it: they could overwrite the inherited name
+                late = [e for e in p.calls() if e.seq > st[-1].seq and ((q.call_name(e) in ("update_wrapper", "wraps") and SELF in e.d["args"][:1]) or (q.call_name(e) == "update" and q.recv(e) == ("attr", SELF, "__dict__")))]
+                rep.ob("R-NAME", "%s.__init__: nothing overwrites the name attribute afterwards" % ci.name, not late, "%s runs after the name attribute was set and copies arbitrary attributes of the wrapped callable onto the object: a callable that has a %s attribute of its own replaces the executor's name" % (fmt(late[0].d["func"]) if late else "", st[-1].d["target"][2]), where_of(init, late[0].node) if late else where_of(init), trace_of(p))
             else:
                 neg = [e for e in p.calls() if q.call_name(e) == "hasattr" and q.truth_of(p, q.result_of(e)) is False and e.d["args"][1][0] == "const" and e.d["args"][1][1] in cands]
                 ok = len(set(e.d["args"][1][1] for e in neg)) == len(cands) and not ("name" in init.all_param_names())
